@@ -9,6 +9,7 @@ mod locks;
 mod sched;
 mod session;
 mod util;
+mod uvalue;
 
 use std::io::BufRead;
 use util::Args;
@@ -36,6 +37,7 @@ fn worker(kind: &str) {
             "bvh" => bvhcheck::worker_handle(&req),
             "cli" => clicheck::worker_handle(&req),
             "convert" => convert::worker_handle(&req),
+            "uvalue" => uvalue::worker_handle(&req),
             "bdlparse" => bdlparse::worker_handle(&req),
             "faults" => faults::worker_handle(&req),
             _ => serde_json::json!({"error": "unknown worker kind"}),
@@ -58,6 +60,7 @@ fn main() {
         "sched" => sched::main_sched(&args),
         "cli" => clicheck::main_cli(&args),
         "convert" => convert::main_convert(&args),
+        "uvalue" => uvalue::main_uvalue(&args),
         "bdlparse" => bdlparse::main_bdlparse(&args),
         "faults" => faults::main_faults(&args),
         "locks" => locks::main_locks(&args),
